@@ -10,6 +10,8 @@ func addKitchenResources(s *Schema) {
 	add(&TypeDef{Kind: "record", Name: "Thing", Namespace: ns, Fields: []Field{
 		F("id", P("int64")), F("name", P("string")), F("tags", A(P("string"))), F("createdBy", P("string")), F("leaf", R(q("Leaf"))),
 		Opt("opt", P("string")), F("attrs", M(P("string"))), Opt("audit", R(q("Audit"))), Opt("color", R(q("Color"))), Def("rank", P("int32"), "3"),
+		// read-only on ks.things and the field the generated marshalers visit last (they go by name)
+		Opt("zstamp", P("int64")),
 	}})
 	thing, leaf := R(q("Thing")), R(q("Leaf"))
 	str, i32, i64 := P("string"), P("int32"), P("int64")
@@ -52,7 +54,7 @@ func addKitchenResources(s *Schema) {
 		action("names", false, &arrStr),
 		action("index", false, &mapLeaf, F("keys", arrStr)),
 	)
-	res("ks.things", []PathSeg{{Name: "things", KeyName: "thingId", Key: &str}}, &thing, things, []string{"id", "audit/at"}, []string{"createdBy"})
+	res("ks.things", []PathSeg{{Name: "things", KeyName: "thingId", Key: &str}}, &thing, things, []string{"id", "audit/at", "zstamp"}, []string{"createdBy"})
 	// 2. collection keyed by int64, return-entity variants
 	longs := append(allRest(true), finder("recent", true, nil))
 	res("ks.longs", []PathSeg{{Name: "longs", KeyName: "longId", Key: &i64}}, &leaf, longs, nil, nil)
